@@ -579,4 +579,5 @@ func c07Spaces(c *fw.Ctx) {
 	c07ErrorPositionSpace(c)
 	c07DryDirectiveSpace(c)
 	c07CutShortSpace(c)
+	c07RdataSpace(c)
 }
